@@ -429,13 +429,17 @@ func init() {
 	})
 	eng.Register(&eng.Scenario{
 		Name: "promise-preresolved", Props: []string{"C11"}, MustFinish: true, ObsNames: stdObs,
-		Doc:   "Promise constructed already resolved (NewPromiseWithResult(v,nil|E|Canceled) or NewPromiseWithErr(E), choice): two later SetResult calls must both return false and every kind of await (incl. one with an already-cancelled context) returns the constructor's pair",
+		Doc:   "Promise constructed already resolved (NewPromiseWithResult(v,nil|E|Canceled) or NewPromiseWithErr(E|nil), choice): two later SetResult calls must both return false and every kind of await (incl. one with an already-cancelled context) returns the constructor's pair",
 		Quick: eng.Bounds{PB: 2}, Thorough: eng.Bounds{PB: 3},
 		Body: func() {
 			bg := context.Background()
 			var p *promise.Promise[int]
 			wantV, wantC := 11, int64(0)
-			switch vsched.Choose(4) {
+			switch vsched.Choose(5) {
+			case 4:
+				// a nil error is a result like any other: resolved with (zero, nil)
+				p = promise.NewPromiseWithErr[int](nil)
+				wantV, wantC = 0, 0
 			case 0:
 				p = promise.NewPromiseWithResult(11, nil)
 			case 1:
@@ -564,6 +568,38 @@ func init() {
 		Doc:   "PromiseContainer: two awaiters at once (Await and AwaitWithCancelCh) entering while the container is still empty, then promises p1, p2 are installed and resolved: both return the current promise's result",
 		Quick: eng.Bounds{PB: 1}, Thorough: eng.Bounds{PB: 2},
 		Body: containerBody([]int{aPlain, aCancelCh}, false, false),
+	})
+	eng.Register(&eng.Scenario{
+		Name: "pcontainer-nested", Props: []string{"C11"}, MustFinish: true, ObsNames: stdObs,
+		Doc:   "PromiseContainer holding another PromiseContainer (a PromiseLike like any other) which holds an unresolved promise (or nothing; choice): an awaiter on the outer container (every await kind, choice); then the inner container is given a result (SetResult, or SetPromise of a resolved promise; choice): the outer awaiter returns that result - the outer container follows the inner one, not a snapshot of it",
+		Quick: eng.Bounds{PB: 2}, Thorough: eng.Bounds{PB: 3},
+		Body: func() {
+			bg := context.Background()
+			outer, inner := promise.NewPromiseContainer[int](), promise.NewPromiseContainer[int]()
+			if vsched.Choose(2) == 1 {
+				inner.SetPromise(promise.NewPromise[int]())
+			}
+			outer.SetPromise(inner)
+			kind := vsched.Choose(3)
+			how := vsched.Choose(2)
+			T("A", func() {
+				v, err := doAwait(outer, kind, bg, nil, nil)
+				if v != 7 || err != nil {
+					fail("C11.wrong-result", "outer %s returned (%d,%v), the inner container was given (7,nil)", aLabels[kind], v, err)
+				}
+			})
+			T("S", func() {
+				if how == 0 {
+					inner.SetResult(7, nil)
+				} else {
+					inner.SetPromise(promise.NewPromiseWithResult(7, nil))
+				}
+			})
+			vsched.Settle()
+			if n := vsched.CountParked(aLabels[kind]); n > 0 {
+				fail("C11.awaiter-stuck", "the inner container holds a resolved promise but the awaiter on the outer container is still parked")
+			}
+		},
 	})
 	eng.Register(&eng.Scenario{
 		Name: "promise-chan-only", Props: []string{"C11"}, ObsNames: stdObs,
